@@ -72,6 +72,7 @@ ON_ERROR = ['return', 'raise']
 VERBOSE = [0, 3]
 MODES = ['native', 'pytest']
 IMPORT_KINDS = ['good', 'raises', 'syntax', 'missing', 'packaged', 'packaged_index0', 'good_twice', 'rotates_syspath',
+                'shrinks_syspath',
                 'root_first_on_syspath', 'root_inside_syspath', 'root_first_on_syspath_index0',
                 'raises_root_first_on_syspath', 'raises_root_inside_syspath', 'syntax_root_first_on_syspath']
 
@@ -205,6 +206,9 @@ def make_import_targets(root):
     t['packaged_index0'] = t['packaged']
     # import-time code that re-orders sys.path (every entry is kept): the temporary entry moves with the others
     t['rotates_syspath'] = w('rot_zz/improt_zz.py', 'import sys\n_first = sys.path.pop(0)\nsys.path.append(_first)\nZ = 3\n')
+    # import-time code that removes the first sys.path entry (finding F41); the harness puts that entry back before the
+    # comparison, what must be gone is the temporary entry
+    t['shrinks_syspath'] = w('shr_zz/impshr_zz.py', 'import sys\n_gone = sys.path.pop(0)\nV = 5\n')
     # the module's import root is already on sys.path (at the front / in the middle) when it is imported by path
     t['root_first_on_syspath'] = w('onpath_zz/impon_zz.py', 'W = 4\n')
     t['root_inside_syspath'] = t['root_first_on_syspath']
@@ -235,14 +239,21 @@ def check_imports(ctx):
             sys.path.insert(0, os.path.dirname(p))
         elif 'root_inside' in kind:
             sys.path.insert(len(sys.path) // 2, os.path.dirname(p))
+        def call(p=p, kw=kw, kind=kind):
+            first = sys.path[0]
+            try:
+                return utils.import_module_from_path(p, **kw)
+            finally:
+                if kind == 'shrinks_syspath' and (not sys.path or sys.path[0] != first):
+                    sys.path.insert(0, first)
         try:
             result, ok = monitored(ctx, 'utils.import_module_from_path(%s)' % kind,
-                                   lambda: utils.import_module_from_path(p, **kw), case, 'target %s' % p,
+                                   call, case, 'target %s' % p,
                                    path_as_multiset=(kind == 'rotates_syspath'))
         finally:
             sys.path[:] = saved_path
         if ok:
-            if kind in ('good', 'good_twice', 'packaged', 'packaged_index0', 'rotates_syspath', 'root_first_on_syspath',
+            if kind in ('good', 'good_twice', 'packaged', 'packaged_index0', 'rotates_syspath', 'shrinks_syspath', 'root_first_on_syspath',
                         'root_inside_syspath', 'root_first_on_syspath_index0') and result[0] != 'returned':
                 ctx.violation('import-failed', 'importing the %s module by path raised %r' % (kind, result[1]), case)
             else:
